@@ -208,16 +208,8 @@ _STATE = {}
 # Facts that FAIL on the current /repo tree (confirmed defects, see NOTES.md "Defects found").  They are
 # excluded from the generated Coq facts and from the Python evaluation until the coordinator decides
 # between a fix: commit and a known-findings entry; each is listed in the evidence notes.
-DEFECTS = {
-    # DEFECT-1: CAN_USE_NO_CARRY_SQUARE_OPT is initialised with can_use_no_carry_mul_optimization (one spare
-    # bit) although it is documented -- and can_use_no_carry_square_optimization implements -- two spare bits
-    ('*', '*', 'flag_square'): 'DEFECT-1',
-    # DEFECT-2/3: #[generator = "2"] is a quadratic residue mod the NIST primes: TWO_ADIC_ROOT_OF_UNITY = 1
-    ('secp256r1', 'fq', 'gen_nonresidue'): 'DEFECT-2', ('secp256r1', 'fq', 'root'): 'DEFECT-2',
-    ('secp384r1', 'fq', 'gen_nonresidue'): 'DEFECT-3', ('secp384r1', 'fq', 'root'): 'DEFECT-3',
-    # DEFECT-4: bw6_767 Fq3 QUADRATIC_NONRESIDUE_TO_T = 1 (must be -1: order exactly 2^TWO_ADICITY = 2)
-    ('bw6_767', 'fq3', 'sqrt_params'): 'DEFECT-4',
-}
+DEFECTS = {}   # the four defects found while building this package were repaired by fix: commits in /repo
+               # (aa57212, d721096, b8af228, 80c3297); nothing is excluded any more
 
 
 def defect_of(f):
